@@ -3146,19 +3146,21 @@ class Client:
 
         # All data for this packet is read.
         self._in_packet['pos'] = 0
-        rc = self._packet_handle()
-
-        # Free data and reset values
-        self._in_packet = {
-            "command": 0,
-            "have_remaining": 0,
-            "remaining_count": [],
-            "remaining_mult": 1,
-            "remaining_length": 0,
-            "packet": bytearray(b""),
-            "to_process": 0,
-            "pos": 0,
-        }
+        try:
+            rc = self._packet_handle()
+        finally:
+            # Free data and reset values, also when a user callback raised:
+            # the packet must not be handled again by the next call.
+            self._in_packet = {
+                "command": 0,
+                "have_remaining": 0,
+                "remaining_count": [],
+                "remaining_mult": 1,
+                "remaining_length": 0,
+                "packet": bytearray(b""),
+                "to_process": 0,
+                "pos": 0,
+            }
 
         with self._msgtime_mutex:
             self._last_msg_in = time_func()
